@@ -296,17 +296,25 @@ pub fn decl_source(t: &mut Toks) -> R<String> {
         let disc = t.next()?.to_string();
         let display = t.next()?.to_string();
         let nalts = t.num()?;
-        let mut alts = vec![];
+        // "|" separates several #[alt(..)] attributes on the same variant
+        let mut alt_groups: Vec<Vec<String>> = vec![vec![]];
         for _ in 0..nalts {
-            alts.push(lit_tok(t.next()?)?);
+            let tok = t.next()?;
+            if tok == "|" {
+                alt_groups.push(vec![]);
+            } else {
+                alt_groups.last_mut().unwrap().push(lit_tok(tok)?);
+            }
         }
         if display != "-" {
             let cp: u32 = display.parse().map_err(|_| Fail::BadOp("display".into()))?;
             let ch = char::from_u32(cp).ok_or(Fail::BadOp("display cp".into()))?;
             src.push_str(&format!("#[display({:?})] ", ch));
         }
-        if !alts.is_empty() {
-            src.push_str(&format!("#[alt({})] ", alts.join(", ")));
+        for alts in &alt_groups {
+            if !alts.is_empty() {
+                src.push_str(&format!("#[alt({})] ", alts.join(", ")));
+            }
         }
         if disc == "-" {
             src.push_str(&format!("{ident}, "));
